@@ -821,6 +821,28 @@ V("c22-twin-wrapper-uses-keywords", "C22", "-", "dask_array/_frisky/creation.py"
 V("c22-twin-rust-comment-with-braces", "C22", "-", "crates/dask-array-python/src/squeeze.rs",
   "        input_ndim: usize,\n        axis_set: Vec<usize>,\n    ) -> Self {", "        input_ndim: usize, // } fn new(oops: {\n        axis_set: Vec<usize>, /* #[new] fn other(a: u8) { */\n    ) -> Self {\n        let _note = \"fn fake(x: i32) {\";", twin=True)
 
+V("c03-expanddims-chunks-in-given-order", "C03", "R03.6", "dask_array/manipulation/_expand.py",
+  "        for ax in sorted(self.axes):\n            chunks.insert(ax, (1,))", "        for ax in self.axes:\n            chunks.insert(ax, (1,))", expect="ExpandDims::axes")
+V("c03-expanddims-layer-in-given-order", "C03", "R03.6", "dask_array/manipulation/_expand.py",
+  "        axes = tuple(sorted(self.axes))\n        input_name = self.array._name", "        axes = self.axes\n        input_name = self.array._name", expect="ExpandDims::axes")
+V("c03-twin-expanddims-sorted-once-in-a-property", "C03", "-", "dask_array/manipulation/_expand.py", None, None, twin=True, edits=[
+  ("dask_array/manipulation/_expand.py", "    @functools.cached_property\n    def chunks(self):\n        chunks = list(self.array.chunks)\n        for ax in sorted(self.axes):", "    @functools.cached_property\n    def _ordered_axes(self):\n        return tuple(sorted(self.axes))\n\n    @functools.cached_property\n    def chunks(self):\n        chunks = list(self.array.chunks)\n        for ax in self._ordered_axes:"),
+  ("dask_array/manipulation/_expand.py", "        axes = tuple(sorted(self.axes))\n        input_name = self.array._name", "        axes = self._ordered_axes\n        input_name = self.array._name"),
+])
+V("c28-slice-fusion-bypasses-the-door-again", "C28", "R28.4", "dask_array/slicing/_basic.py",
+  "                if not any(np.isnan(dim) and idx != slice(None, None, None) for dim, idx in zip(shape, normalized)):\n                    return SliceSlicesIntegers(self.array.array, normalized, self.allow_getitem_optimization)", "                return SliceSlicesIntegers(self.array.array, normalized, self.allow_getitem_optimization)", expect="_simplify_down")
+V("c28-new-rewrite-builds-slice-node-directly", "C28", "R28.4", "dask_array/manipulation/_expand.py", None, None, expect="SliceSlicesIntegers(...)", edits=[
+  ("dask_array/manipulation/_expand.py", None, "\n\ndef _trim_leading(expr, n):\n    from dask_array.slicing import SliceSlicesIntegers\n\n    return SliceSlicesIntegers(expr, (slice(n, None),) + (slice(None),) * (expr.ndim - 1), False)\n"),
+])
+V("c28-door-refusal-dropped", "C28", "R28.4", "dask_array/slicing/_basic.py",
+  "    for dim, ind in zip(shape, index):\n        if np.isnan(dim) and ind != slice(None, None, None):\n            raise ValueError(f\"Arrays chunk sizes are unknown: {shape}{unknown_chunk_message}\")\n", "", expect="slice_slices_and_integers")
+V("c28-twin-fusion-guard-as-early-continue", "C28", "-", "dask_array/slicing/_basic.py",
+  "                if not any(np.isnan(dim) and idx != slice(None, None, None) for dim, idx in zip(shape, normalized)):\n                    return SliceSlicesIntegers(self.array.array, normalized, self.allow_getitem_optimization)",
+  "                partial_unknown = any(np.isnan(dim) and idx != slice(None, None, None) for dim, idx in zip(shape, normalized))\n                if not partial_unknown:\n                    return SliceSlicesIntegers(self.array.array, normalized, self.allow_getitem_optimization)", twin=True)
+V("c12-stop-defaulted-with-or", "C12", "R12.6", "dask_array/slicing/_utils.py",
+  "            if idx.start in (None, 0) and idx.stop is None and idx.step in (None, 1):\n                return slice(None, None, None)\n            return idx", "            if idx.step in (None, 1):\n                return slice(idx.start or None, idx.stop or None, None)\n            return idx", expect="normalize_slice")
+V("c12-twin-stop-compared-with-none", "C12", "-", "dask_array/slicing/_utils.py",
+  "            if idx.start in (None, 0) and idx.stop is None and idx.step in (None, 1):", "            if (idx.start is None or idx.start == 0) and idx.stop is None and (idx.step is None or idx.step == 1):", twin=True)
 V("c02-detector-uses-forward-permutation", "C02", "R02.6", "dask_array/_blockwise.py",
   "        inv = expr._inverse_axes\n        dep_mapping = tuple(parent_mapping[inv[i]] for i in range(len(inv)))", "        dep_mapping = tuple(parent_mapping[ax] for ax in expr.axes)", expect="_symbolic_mapping")
 V("c02-twin-detector-local-rename", "C02", "-", "dask_array/_blockwise.py",
